@@ -1451,6 +1451,10 @@ def symbolic_map(interp, it, gen, node, env, keep_and_val, kind):
         oc = drop_index(interp, it, gen, node, env, kind)
         if oc is not None:
             return oc
+        if getattr(interp, 'exact_filters', False):
+            oc = exact_filter(interp, it, gen, node, env, kind, keep_and_val)
+            if oc is not None:
+                return oc
         if not getattr(interp, 'overapprox_filters', False):
             raise Unsupported('filtered comprehension over a symbolic sequence at %s' % interp.where(node))
         # sound over-approximation (havoc): some list no longer than the source; contents unconstrained
@@ -1470,6 +1474,38 @@ def symbolic_map(interp, it, gen, node, env, keep_and_val, kind):
         sym_exhaust(it)
         return Seq(arr, ln, kind, 'Fresh')
     return drain(interp, MapIter(it, keep_and_val), kind, node)
+
+
+def exact_filter(interp, it, gen, node, env, kind, keep_and_val):
+    """[x for x in seq if cond(x)]  with a pure, exception-free condition: the order-preserving subsequence of the elements that
+    satisfy it -- characterised exactly (T6) through a strictly increasing index map idx and its inverse inv:
+        r[q] = seq[idx(q)], cond(seq[idx(q)]), idx strictly increasing;   cond(seq[p])  ==>  idx(inv(p)) = p, 0 <= inv(p) < len(r)"""
+    if not (isinstance(it, SrcIter) and it.arr is not None and isinstance(gen.target, ast.Name)
+            and isinstance(getattr(node, 'elt', None), ast.Name) and node.elt.id == gen.target.id):
+        return None
+    e = smt.fresh_v('cj!felem')          # ('cj!' marks facts about the bound element as branch conditions, see is_axiom_instance)
+    paths = ite_paths(interp, lambda: keep_and_val(SCell(e)), [])
+    if any(exc is not None for _, _, exc in paths):
+        return None
+    phi = z3.Or([g for g, v, _ in paths if v[0]] + [z3.BoolVal(False)])
+    at = lambda term: z3.substitute(phi, (e, term))
+    n = z3.simplify(it.n - it.pos)
+    src = lambda p: z3.Select(it.arr, it.pos + p)
+    ln = smt.fresh_int('flen')
+    arr = smt.fresh_arr('filtered')
+    tag = str(ln)
+    idx = z3.Function('fidx!' + tag, z3.IntSort(), z3.IntSort())
+    inv = z3.Function('finv!' + tag, z3.IntSort(), z3.IntSort())
+    q, q2, p = smt.fresh_int('q'), smt.fresh_int('q2'), smt.fresh_int('p')
+    interp.ctx.assume(z3.And(0 <= ln, ln <= n))
+    emit(z3.ForAll([q], z3.Implies(z3.And(0 <= q, q < ln), z3.And(0 <= idx(q), idx(q) < n, z3.Select(arr, q) == src(idx(q)), at(src(idx(q))))),
+                   patterns=[z3.Select(arr, q), idx(q)]))
+    emit(z3.ForAll([q, q2], z3.Implies(z3.And(0 <= q, q < q2, q2 < ln), idx(q) < idx(q2)), patterns=[z3.MultiPattern(idx(q), idx(q2))]))
+    emit(z3.ForAll([p], z3.Implies(z3.And(0 <= p, p < n, at(src(p))), z3.And(0 <= inv(p), inv(p) < ln, idx(inv(p)) == p)), patterns=[inv(p), src(p)]))
+    sym_exhaust(it)
+    r = Seq(arr, ln, kind, 'Fresh')
+    r.filter_of = (idx, inv)
+    return r
 
 
 def drop_index(interp, it, gen, node, env, kind):
